@@ -294,6 +294,8 @@ def grid(repo: Repo, rep: Report) -> None:
 
     w = make_world(repo)
     shapes = [(1, 1), (1, 3), (3, 1), (2, 3), (3, 4), (0, 2), (2, 0)]
+    if rep.tier == "thorough":
+        shapes += [(1, 2), (2, 1), (2, 2), (1, 4), (4, 1), (1, 6), (3, 2), (4, 4), (2, 5)]
     impl = {c: w.find_method(c, "_getitem_impl")[1] for c in ("BoolArray2D", "IntArray2D")}
     shared_impl = impl["BoolArray2D"] is not None and impl["BoolArray2D"] is impl["IntArray2D"]
     pairs = (("BoolArray1D", "BoolArray2D"), ("IntArray1D", "IntArray2D"))
